@@ -31,6 +31,10 @@ def explore(f, ev, max_paths=4000):
                 out.append({'kind': 'loop', 'blocks': trail + [bb], 'fuzzy': True, 'ret': None, 'bb': bb})
                 break
             trail = trail + [bb]
+            try:
+                ev.trail = trail          # path-sensitive evaluators read multi-definition locals along the trail
+            except Exception:
+                pass
             blk = body.blocks[bb]
             t = blk.term
             k = t.kind
